@@ -62,6 +62,8 @@ EXPECT = {
     "seed-C12-w": ["C12"], "seed-C13-w": ["C13"], "seed-C15-w": ["C15"], "seed-C16-w": ["C16"], "seed-C19-w": ["C19"],
     "seed-C02-s": ["C02"], "seed-C03-s": ["C03"], "seed-C05-s": ["C05"], "seed-C06-s": ["C06"], "seed-C09-s": ["C09"], "seed-C10-s": ["C10"], "seed-C12-s": ["C12", "C04"],
     "seed-C13-s": ["C13"], "seed-C14-s": ["C14"], "seed-C16-s": ["C16", "C01"], "seed-C17-s": ["C17"], "seed-C18-s": ["C18"], "seed-C19-s": ["C19"],
+    "seed-C01-x": ["C01"], "seed-C02-x": ["C02"], "seed-C04-x": ["C04"], "seed-C05-x": ["C05"], "seed-C09-x": ["C09"], "seed-C10-x": ["C07"], "seed-C12-x": ["C12", "C04"],
+    "seed-C13-x": ["C13"], "seed-C14-x": ["C14", "C13"], "seed-C16-x": ["C16", "C08"], "seed-C17-x": ["C17"], "seed-C19-x": ["C19"],
     "seed-C07-o": ["C07"], "seed-C08-o": ["C08"], "seed-C10-o": ["C10"], "seed-C11-o": ["C11"], "seed-C13-o": ["C13"], "seed-C16-o": ["C16"], "seed-C19-o": ["C19"],
 }
 
